@@ -3,6 +3,7 @@ import SeqVerif.Model.Bulk
 import SeqVerif.Model.BulkTime
 import SeqVerif.Model.BulkMeta
 import SeqVerif.Model.BulkMetaCodec
+import SeqVerif.Model.BulkIndex
 import SeqVerif.Extracted.C10
 /-!
 Driver for C10.  Requests (hex = byte string, `-` = empty):
@@ -14,6 +15,11 @@ Driver for C10.  Requests (hex = byte string, `-` = empty):
                                                             -> as `bulk.proc`, the store call printed as `count:payload hex:mid/size,...`
   `bulk.encode <doc hex,...>`                               -> `ok <payload hex>`
   `bulk.decode <payload hex>`                               -> `ok <doc hex,...>` | `err malformed`
+  `bulk.index <maxTokenSize> <cs> <partial> <maxFieldValueLength> <doc ns | none> <req ns> <drift> <futureDrift> <doc length> <mapping> <tree>`
+                                                            -> `ok <mid/size/khex=vhex+...;...>`  one entry per meta (SV.Bulk.metasFor: time rule, indexDoc)
+     mapping = `,`-separated `<path hex>=<x|o|g|n|l>:<title hex>/<k|t|p|e|o>/<maxSize>+...`;
+     tree = `|`-separated preorder: node = `<AsBytes hex>~<trunes of encodeInsaneNode>~<o|a|x>~<#fields>~<#items>` followed by
+     (`<name hex>`, node) per field and a node per item; trunes as in the C11 driver
   `bulk.metas <metas payload hex>`                          -> `ok <mid:rid:size:khex=vhex+...,...> reenc=<0|1>` | `err malformed`
   `bulk.delayed <docDelay> <drift> <futureDrift>`           -> `ok <0|1>`     (extracted translation of documentDelayed)
   `bulk.mid <doc ns | none> <req ns> <drift> <futureDrift>` -> `ok <MID>`
@@ -82,6 +88,78 @@ def parseOracle (s : String) : Option (List (Nat × Bytes × Int)) :=
       | _ => none
     | _ => none
 
+open SV.Parser SV.Tok SV.BulkIndex in
+def parseRn (s : String) : Option Rn :=
+  match s.splitOn "/" with
+  | [b, cp, cls, lo] => do
+    let b ← hex? b
+    let cp ← cp.toNat?
+    let lo ← lo.toNat?
+    match cls.toList with
+    | [l, n, d, sp] => pure ⟨b, cp, l = '1', n = '1', d = '1', lo, sp = '1'⟩
+    | _ => none
+  | _ => none
+
+open SV.Tok in
+def parseTRn (s : String) : Option TRn :=
+  match s.splitOn "!" with
+  | [r, a, b] => do pure ⟨(← parseRn r), (← hex? a), (← hex? b)⟩
+  | _ => none
+
+open SV.BulkIndex SV.Tok in
+mutual
+def parseNode : Nat → List String → Option (JV × List String)
+  | 0, _ => none
+  | _, [] => none
+  | f + 1, hdr :: rest =>
+    match hdr.splitOn "~" with
+    | [ab, rs, sh, nf, ni] => do
+      let ab ← hex? ab
+      let rs ← (splitList rs ".").mapM parseTRn
+      let shape ← (if sh = "o" then some Shape.obj else if sh = "a" then some Shape.arr else if sh = "x" then some Shape.other else none)
+      let (fs, rest) ← parseFields f (← nf.toNat?) rest
+      let (is, rest) ← parseItems f (← ni.toNat?) rest
+      pure (JV.mk ab rs shape fs is, rest)
+    | _ => none
+def parseFields : Nat → Nat → List String → Option (List (Bytes × JV) × List String)
+  | _, 0, rest => some ([], rest)
+  | 0, _, _ => none
+  | _, _, [] => none
+  | f + 1, n + 1, name :: rest => do
+    let name ← hex? name
+    let (v, rest) ← parseNode f rest
+    let (fs, rest) ← parseFields f n rest
+    pure ((name, v) :: fs, rest)
+def parseItems : Nat → Nat → List String → Option (List JV × List String)
+  | _, 0, rest => some ([], rest)
+  | 0, _, _ => none
+  | f + 1, n + 1, rest => do
+    let (v, rest) ← parseNode f rest
+    let (is, rest) ← parseItems f n rest
+    pure (v :: is, rest)
+end
+
+open SV.BulkIndex SV.Tok in
+def parseMapping (s : String) : Option (List (Bytes × MTypes)) :=
+  (splitList s).mapM fun e =>
+    match e.splitOn "=" with
+    | [p, v] =>
+      match v.splitOn ":" with
+      | [m, all] => do
+        let p ← hex? p
+        let m ← (if m = "x" then some Main.noop else if m = "o" then some Main.object else if m = "g" then some Main.tags
+                 else if m = "n" then some Main.nested else if m = "l" then some Main.leaf else none)
+        let all ← (splitList all "+").mapM fun t =>
+          match t.splitOn "/" with
+          | [title, tt, mx] => do
+            let tt ← (if tt = "k" then some TT.keyword else if tt = "t" then some TT.text else if tt = "p" then some TT.path
+                      else if tt = "e" then some TT.exists else if tt = "o" then some TT.other else none)
+            pure (⟨← hex? title, tt, ← mx.toNat?⟩ : MType)
+          | _ => none
+        pure (p, ⟨m, all⟩)
+      | _ => none
+    | _ => none
+
 def step (line : String) : String :=
   match fields line with
   | ["bulk.readline", b, eager, clean, body] =>
@@ -104,13 +182,15 @@ def step (line : String) : String :=
   | ["bulk.proc", b, eager, clean, storeOk, body, kinds] =>
     match env? b eager clean, some SV.Extracted.C10.actionLinesToCheck, bool? storeOk, hex? body, kinds? kinds with
     | some E, some c, some so, some s, some tbl =>
-      fmtResult false (processDocuments E c (kindOf tbl) (fun d => ⟨0, d.length⟩) so s)
+      fmtResult false (processDocuments E c (kindOf tbl) (fun d => [⟨0, 0, d.length, []⟩]) so s)
     | _, _, _, _, _ => "bad-op"
   | ["bulk.ingest", b, eager, clean, storeOk, req, drift, fut, body, kinds] =>
     match env? b eager clean, some SV.Extracted.C10.actionLinesToCheck, bool? storeOk, hex? body, kinds? kinds, req.toInt?, drift.toInt?, fut.toInt? with
     | some E, some c, some so, some s, some tbl, some req, some drift, some fut =>
+      -- the ingest channel runs without a nested mapping: the index side is an empty tree (one meta per document)
       let T : TimeCfg := ⟨SV.Extracted.C10.documentDelayedX, timeOfTbl tbl, req, drift, fut⟩
-      fmtResult true (processDocuments E c (kindOf tbl) (metaFor T) so s)
+      let I : IndexCfg := ⟨⟨0, false, false, 0, false⟩, fun _ => ⟨.noop, []⟩, fun _ => .mk [] [] .obj [] [], fun _ => 0⟩
+      fmtResult true (processDocuments E c (kindOf tbl) (metasFor T I) so s)
     | _, _, _, _, _, _, _, _ => "bad-op"
   | ["bulk.encode", docs] =>
     match hexList? docs with
@@ -123,6 +203,22 @@ def step (line : String) : String :=
       | some ds => s!"ok {fmtDocs ds}"
       | none => "err malformed"
     | none => "bad-op"
+  | ["bulk.index", mts, cs, part, mfl, doc, req, drift, fut, dlen, mapping, tree] =>
+    let doc? : Option (Option Int) := if doc = "none" then some none else doc.toInt?.map some
+    let toks := tree.splitOn "|"
+    match mts.toNat?, bool? cs, bool? part, mfl.toNat?, doc?, req.toInt?, drift.toInt?, fut.toInt?, dlen.toNat?,
+        parseMapping mapping, parseNode (3 * toks.length + 3) toks with
+    | some mts, some cs, some part, some mfl, some doc, some req, some drift, some fut, some dlen, some tbl, some (root, []) =>
+      let c : SV.Tok.TokCfg := ⟨mts, cs, part, mfl, SV.Extracted.C10.csNormalizesInvalid⟩
+      let mp (k : Bytes) : SV.BulkIndex.MTypes := match tbl.find? (fun e => e.1 = k) with
+        | some e => e.2
+        | none => ⟨.noop, []⟩
+      let d : Bytes := List.replicate dlen 0
+      let T : TimeCfg := ⟨SV.Extracted.C10.documentDelayedX, fun _ => doc, req, drift, fut⟩
+      let ms := metasFor T ⟨c, mp, fun _ => root, fun _ => 0⟩ d
+      let fmtTok (t : Bytes × Bytes) := s!"{fmtHex t.1}={fmtHex t.2}"
+      "ok " ++ fmtList (fun (m : Meta) => s!"{m.mid}/{m.size}/{fmtList fmtTok m.tokens "+"}") ms ";"
+    | _, _, _, _, _, _, _, _, _, _, _ => "bad-op"
   | ["bulk.metas", payload] =>
     match hex? payload with
     | some p =>
